@@ -72,6 +72,11 @@ pub fn cleanup_scratch() {
 }
 
 fn gen_size(t: &mut Tape) -> u64 {
+    if t.chance(1, 8) {
+        if let Some(v) = crate::dict::pick_in(t.draw(1 << 16), 0, 400_000) {
+            return v;
+        }
+    }
     match t.draw(10) {
         0 => 0,
         1 => 1,
@@ -87,6 +92,11 @@ fn gen_size(t: &mut Tape) -> u64 {
 }
 
 fn gen_offset(t: &mut Tape, len: u64) -> u64 {
+    if t.chance(1, 8) {
+        if let Some(v) = crate::dict::pick_in(t.draw(1 << 16), 0, len) {
+            return v;
+        }
+    }
     let v = match t.draw(10) {
         0 => 0,
         1 => 1,
@@ -769,7 +779,12 @@ fn run_huge(ctx: &mut Ctx) -> Result<RunOut, Violation> {
     use std::os::unix::fs::FileExt as _;
     let t = &mut ctx.tape;
     const G4: u64 = 1 << 32;
-    let len = [G4 - 1, G4, G4 + 1, G4 + 65536, 2 * G4, G4 / 2, 3 * (G4 / 2), 1 << 40, G4 + 65535, 5 * G4 + 12345][t.draw(10) as usize];
+    let mut len = [G4 - 1, G4, G4 + 1, G4 + 65536, 2 * G4, G4 / 2, 3 * (G4 / 2), 1 << 40, G4 + 65535, 5 * G4 + 12345][t.draw(10) as usize];
+    if t.chance(1, 4) {
+        if let Some(v) = crate::dict::pick_in(t.draw(1 << 16), 1 << 31, 1 << 44) {
+            len = v + [0u64, 1, 65536][t.draw(3) as usize];
+        }
+    }
     let a = [0u64, 0, 1, 12345, 65536, G4 - 5, len / 2][t.draw(7) as usize].min(len - 1);
     let b = match t.draw(4) {
         0 | 1 => len,
@@ -902,6 +917,25 @@ fn run_sequence(ctx: &mut Ctx) -> Result<RunOut, Violation> {
         Ok(c) => c,
         Err(e) => return violation(prop, "regular-file-refused", e.to_string()),
     };
+    // Short reads throughout (the read seam clamps every positioned read to a drawn size).
+    let clamp_mode = t.draw(3);
+    let clamp: Vec<u32> = (0..64)
+        .map(|_| match clamp_mode {
+            0 => 0,
+            1 => 1 + t.draw(3),
+            _ => [0u32, 1, 7, 1000, 4096][t.draw(5) as usize],
+        })
+        .collect();
+    let hook_w = std::fs::OpenOptions::new().write(true).open(&path).expect("open for hook");
+    let hs = Rc::new(RefCell::new(HookState { reads: 0, fault: None, fired: None, clamp, wfile: hook_w, log: Vec::new() }));
+    install_hook(&hs);
+    struct HookReset;
+    impl Drop for HookReset {
+        fn drop(&mut self) {
+            http_serve::verif::set_read_hook(None);
+        }
+    }
+    let _hook_reset = HookReset;
     let n_steps = 2 + t.draw(2);
     let trunc_before = if c02 { n_steps } else { 1 + t.draw(n_steps) }; // may be == n_steps: no truncation at all
     let mut cur_len = len;
